@@ -33,7 +33,8 @@ def fixpoint_rule(rep, F):
     org = ff.Origins(F, fid)
     n = 0
     for bi, kind, loc in mp.success_stores(F, fid):
-        if kind != "ok":
+        tail_call = kind.startswith("call:") and kind.endswith("calc_required_coin")  # `Self::calc_required_coin(..)` returned as is
+        if kind != "ok" and not tail_call:
             continue
         n += 1
         rep.inst("FIX-gate")
@@ -41,7 +42,7 @@ def fixpoint_rule(rep, F):
         for st in fn["bbs"][bi]["st"]:
             if st[1] == "=" and st[2] == "_0" and st[3][0] == "agg":
                 ops = st[3][4]
-        src = direct_call_of(fn, ops[0]) if ops else None
+        src = (bi, kind[5:]) if tail_call else (direct_call_of(fn, ops[0]) if ops else None)
         if not src or not src[1].endswith("calc_required_coin"):
             rep.violation("FIX-gate", "calculate_ada|not-a-priced-result", "calculate_ada returns a value (%s) that is not directly the result of calc_required_coin: a coin remembered from an earlier, narrower sizing of the output can be returned" % facts.loc_str(loc, fn), {})
             continue
@@ -53,6 +54,8 @@ def fixpoint_rule(rep, F):
                 a1 = d["args"][1] if len(d["args"]) > 1 else []
                 if any(x.startswith("call:") and x.endswith("@%d" % cb) for x in a1) and mp.dominated_by(fn, s, cb):
                     ok = True
+            if d["kind"] == "cmp3" and len(d["args"]) == 2 and any(x.startswith("call:") and x.endswith("@%d" % cb) for x in d["args"][1]) and mp.cmp3_implies(edge, "ge") and mp.dominated_by(fn, s, cb):
+                ok = True  # match coin.cmp(&required) { Equal | Greater => return Ok(required) }
         # (b) the call is made after a store of u64::MAX into the coin field, in the same block or a dominating one that is outside loops
         if not ok:
             for bj in [cb] + list(dominators(fn, cb)):
@@ -65,6 +68,9 @@ def fixpoint_rule(rep, F):
                                 if st2[1] == "=" and st2[2] == src2[1][1] and st2[3][0] == "agg" and st2[3][4] and st2[3][4][0][0] == "k" and str(st2[3][4][0][1]).startswith("18446744073709551615"):
                                     if bj == cb:
                                         ok = True
+                            # ... or the result of BigNum::max_value()
+                            if any(x.startswith("call:") and x.split("@")[0].endswith("BigNum::max_value") for x in org.of_operand(src2[1])) and (bj == cb or bj in dominators(fn, cb)):
+                                ok = True
         if not ok:
             rep.violation("FIX-gate", "calculate_ada|ungated-return", "calculate_ada returns the result of a calc_required_coin call (%s) that was neither made on an output already holding at least that coin nor on one with the coin set to u64::MAX" % facts.loc_str(loc, fn), {})
     rep.floor("success returns of calculate_ada", 2, n)
